@@ -66,6 +66,21 @@ MATRIX_X = ["gcc-O2+D__BIG_ENDIAN__@nobzero", "clang-O2+D__BIG_ENDIAN__@nobzero"
             "gcc-O2+DTINYJAMBU_FORCE_C32", "clang-O2+DTINYJAMBU_FORCE_C32"]   # the project's own cmake option BACKEND_C32=ON
 
 
+SPECIAL = os.path.join(VERIF, "model", "pinned", "special.txt")
+
+
+def run_special(ctx, src, builds, args, nb, hname, defs=(), ldflags=()):
+    """Replays the corpus of rare-internal-value inputs (model/pinned/special.txt, searched with the model only: model/mine.c)
+    through the harness's ordinary oracles."""
+    jobs = []
+    for b in builds:
+        exe = ctx.harness(hname + "-" + b["tag"], src, b["lib"], cc=b["cc"], flags=b["hflags"], defs=defs, ldflags=ldflags)
+        for j in batch_jobs(ctx, exe, b["tag"], args, nb):
+            j["env"] = dict(j.get("env") or {}, VERIF_SPECIAL=SPECIAL)
+            jobs.append(j)
+    ctx.run_jobs(jobs, timeout=3000)
+
+
 def batch_jobs(ctx, exe, tag, args, nb):
     jobs = []
     base = [exe, "--seed", str(ctx.seed)] + (["--thorough"] if ctx.thorough else []) + [str(a) for a in args]
@@ -127,6 +142,7 @@ def c01(ctx):
     if ctx.thorough:
         # lengths >= 2^32: a 2^32+5 byte message encrypted and decrypted in place, each key size (exact round-trip oracle)
         run_harness_on(ctx, "h_aead.c", build_set(ctx, ["prod"]), ["--mode", "rt,hugemsg"], 3, hname="h_aead-huge", timeout=5000)
+    run_special(ctx, "h_aead.c", build_set(ctx, ["prod", "gcc-O2", "clang-O2"]), ["--mode", "rt,special"], 4, "h_aead-sp")
     abi.ilp32_monitor(ctx, ['aead'])
     ctx.rule = AEAD_RULE + " Long cases: fixed lengths {65535..65539, 128 KiB+2, 256 KiB, 256 KiB+5, 1 MiB+1} for every variant + random; thorough also 2^32+5 and 2^31+3 bytes in place. Battery: encrypt -> length check -> decrypt (separate and in-place) -> compare; in-place encrypt == out-of-place."
     ctx.rule += ' Supplementary ILP32 monitor: the portable sources compiled with gcc/clang -m32 (4-byte size_t, pointers and long; freestanding runtime, every buffer against a PROT_NONE page) and the production archive run the same deterministic case list (harness/h_abi.c, section aead) as the model; the outputs are compared line by line.'
@@ -156,6 +172,7 @@ def c02(ctx):
     if ctx.thorough:
         # AD of 2^32+7 bytes for all six variants: relational oracle against length truncation / ignored bytes
         run_harness_on(ctx, "h_aead.c", build_set(ctx, ["prod"]), ["--mode", "model,hugead"], 6, hname="h_aead-huge", timeout=5000)
+    run_special(ctx, "h_aead.c", build_set(ctx, ["prod", "gcc-O2", "clang-O2"]), ["--mode", "model,special"], 4, "h_aead-sp")
     abi.ilp32_monitor(ctx, ['aead'])
     ctx.rule = AEAD_RULE + (" Oracle: bit-serial NLFSR model written from the specification (pinned to KATs); every case: library "
                             "ciphertext||tag == model, a second encryption is identical, the model's packet (foreign encryptor) opens to the model's plaintext.")
@@ -179,6 +196,7 @@ def c03(ctx):
         run_harness_on(ctx, "h_aead.c", build_set(ctx, ["prod"]), ["--mode", "tamper,hugetamper"], 3, hname="h_aead-huge", timeout=5000)
     # a forged packet of 2^32+16+8 bytes opened in place: rejected, all plaintext bytes zero (quick: scaled to 2^22+16)
     run_harness_on(ctx, "h_aead.c", build_set(ctx, ["prod"]), ["--mode", "tamper,hugereject", "--p3", ctx.q(22, 0)], 3, hname="h_aead-hugerej", timeout=6000)
+    run_special(ctx, "h_aead.c", build_set(ctx, ["prod", "gcc-O2", "clang-O2"]), ["--mode", "tamper,special"], 4, "h_aead-sp")
     abi.ilp32_monitor(ctx, ['aead'])
     ctx.rule = AEAD_RULE + (" Per packet: valid, forged-valid (random body + model tag must be ACCEPTED), 64 tag bit flips, every "
                             "non-zero XOR delta in every tag byte, cancellation patterns (XOR-fold / additive / reversed / rotated / complemented-but-one), "
@@ -204,6 +222,7 @@ def c04(ctx):
     # a forged packet with a 2^32+16 byte body opened in place: every plaintext byte zero afterwards (quick: scaled to 2^22+16)
     run_harness_on(ctx, "h_aead.c", build_set(ctx, ["prod"]), ["--mode", "zero,hugereject", "--p3", ctx.q(22, 0)], 3, hname="h_aead-hugerej", timeout=6000)
     run_harness_on(ctx, "h_aead.c", build_set(ctx, ["prod"]), ["--mode", "zero,siv,hugereject", "--p3", ctx.q(22, 0)], 3, hname="h_aead-hugerej", timeout=8000)
+    run_special(ctx, "h_aead.c", build_set(ctx, ["prod", "gcc-O2", "clang-O2"]), ["--mode", "zero,both,special"], 4, "h_aead-sp")
     abi.ilp32_monitor(ctx, ['aead', 'siv'])
     ctx.rule = AEAD_RULE + (" All 6 variants; per packet up to 12 tamper sites (each tag byte, body, nonce, key, AD length), in place and "
                             "out of place, output region pre-filled with recorded non-zero junk; after every rejection every byte of "
@@ -229,6 +248,7 @@ def c08(ctx):
         # SIV round trip of 2^32+5 and 2^31+3 byte messages in place (two passes each way: ~5 minutes per case)
         run_harness_on(ctx, "h_aead.c", build_set(ctx, ["prod"]), ["--mode", "rt,siv,hugemsg"], 3, hname="h_aead-huge", timeout=8000)
     run_harness_on(ctx, "h_aead.c", build_set(ctx, ["prod"]), ["--mode", "tamper,siv,hugereject", "--p3", ctx.q(22, 0)], 3, hname="h_aead-hugerej", timeout=8000)
+    run_special(ctx, "h_aead.c", build_set(ctx, ["prod", "gcc-O2", "clang-O2"]), ["--mode", "rt,tamper,siv,special"], 4, "h_aead-sp")
     abi.ilp32_monitor(ctx, ['siv'])
     ctx.rule = AEAD_RULE + (" SIV variants. Round-trip battery (incl. in place) + tamper battery where every expected verdict comes from "
                             "the model of the SIV construction for arbitrary bodies and tags (a changed tag changes keystream and expected tag), "
@@ -254,6 +274,7 @@ def c09(ctx):
     if not ctx.replay and ctx.stats.get("siv_reuse_pairs", 0) < 200:
         ctx.inconclusive.append("too few SIV nonce-reuse pairs observed")
     sivref_second_opinion(ctx)
+    run_special(ctx, "h_aead.c", build_set(ctx, ["prod", "gcc-O2", "clang-O2"]), ["--mode", "model,siv,special"], 4, "h_aead-sp")
     abi.ilp32_monitor(ctx, ['siv'])
     ctx.rule = AEAD_RULE + (" SIV variants vs the model of the README two-pass construction (both directions, determinism), plus nonce-reuse pairs "
                             "(one bit / one byte / suffix of the message, one bit of the AD; mlen >= 8): tags differ and body1^body2 != m1^m2; "
@@ -391,6 +412,7 @@ def c10(ctx):
     if ctx.thorough:
         run_hash_huge(ctx, builds[0], [0, 2])
     byte_order_census(ctx)
+    run_special(ctx, "h_hash.c", build_set(ctx, ["prod", "gcc-O2", "clang-O2"]), ["--mode", "special", "--p1", 0], 4, "h_hash-sp")
     abi.ilp32_monitor(ctx, ['hash'])
     ctx.rule = ("every length 0..N x 6 byte classes (x repetitions), placement (end-guard/start-guard/mid+canary) and alignment offset 0..7 "
                 "rotating with the index, NULL for length 0 in half of the cases; random long lengths (to 64 KiB; thorough: one 4 MiB message, and single calls of 2^32+37 bytes judged against the same bytes fed in pieces below 2^32); "
@@ -410,6 +432,7 @@ def c11(ctx):
     run_hash(ctx, builds, ["--mode", "stream", "--p1", N, "--p2", NZ, "--p3", NR], 16, "h_hash-s")
     if ctx.thorough:
         run_hash_huge(ctx, builds[0], [2, 3])
+    run_special(ctx, "h_hash.c", build_set(ctx, ["prod", "gcc-O2", "clang-O2"]), ["--mode", "special", "--p1", 1], 4, "h_hash-sp")
     abi.ilp32_monitor(ctx, ['hash'])
     ctx.rule = ("(a) ALL 2^(n-1) compositions of every length n <= N into update calls (exhaustive), state object pre-filled with junk; "
                 "(b) for n <= NZ the same with a zero-length update (NULL, then non-NULL) at every gap; (c) random chunkings of messages up to 8 KiB "
@@ -498,6 +521,7 @@ def c15(ctx):
         run_harness_on(ctx, "h_prng.c", builds[:1], ["--mode", "hugegen"], 1, timeout=5000, hname="h_prng-hugegen")
     # 1 MiB streams at the maximum reseed limit (carry out of the low word of V + H + C + counter needs a large counter)
     run_harness_on(ctx, "h_prng.c", builds[:1], ["--mode", "model", "--p1", 0, "--p2", 0, "--p3", ctx.q(32, 480)], 16, timeout=3000, hname="h_prng-long")
+    run_special(ctx, "h_prng.c", build_set(ctx, ["prod", "gcc-O2", "clang-O2"]), ["--mode", "special"], 4, "h_prng-sp")
     abi.ilp32_monitor(ctx, ['prng'])
     ctx.rule = ("random histories init_user(custom) . (generate | feed | reseed | set_limit)* of length <= 12 (thorough 40) with generate sizes "
                 "{0,1,31,32,33,64,100,1000,5000}, limits {0,1,31,32,33,64,100,1024,5000,1 MiB,1 MiB+1,SIZE_MAX}, feeds of 0..299 bytes (NULL for 0), "
@@ -635,7 +659,18 @@ def c18(ctx):
                 for err, when, exp_status, exp_inj in (("EINTR", "%d..%d" % (n, n + 2), 1, 3), ("EAGAIN", "%d..%d" % (n, n + 4), 1, 5),
                                                        ("EINTR", "%d..%d" % (n, n + 40), 1, 41),
                                                        ("ENOSYS", "%d+" % n, 0, 1), ("EPERM", "%d+" % n, 0, 1), ("EIO", "%d+" % n, 0, 1)):
-                    rc, out, lines = strace("getrandom:error=%s:when=%s" % (err, when))
+                    try:
+                        rc, out, lines = strace("getrandom:error=%s:when=%s" % (err, when))
+                    except subprocess.TimeoutExpired:
+                        # decided on logical steps, not on the clock: how many times was the OS asked after it had answered?
+                        lg = [l for l in open(os.path.join(ctx.scratch, "strace.log"), errors="replace").read().splitlines() if re.search(r"getrandom\(.*, 32, 0\)", l)]
+                        ok_answers = [l for l in lg if re.search(r"= 32$", l.strip())]
+                        if exp_status == 1 and len(ok_answers) > 1000:
+                            ctx.violation("e2e-keeps-calling-after-success:%s" % err, {"build": "prod-shared-strace", "inject": "%s when=%s" % (err, when),
+                                          "detail": "the OS answered getrandom(32) successfully %d times after %d injected %s results and was still being asked when the run was stopped" % (len(ok_answers), exp_inj, err), "strace": lg[-6:]})
+                        else:
+                            ctx.inconclusive.append("strace end-to-end run with %s when=%s did not finish (%d library getrandom calls logged)" % (err, when, len(lg)))
+                        continue
                     inj = [l for l in lines if "(INJECTED)" in l]
                     ctx.count("strace_runs", 1)
                     ctx.count("strace_injected_calls_observed", len(inj))
@@ -698,9 +733,11 @@ def c20(ctx):
     jobs = []
     for b in builds:
         exe = ctx.harness("h_erase-" + b["tag"], "h_erase.c", b["lib"], cc=b["cc"], flags=b["hflags"], with_model=False)
-        jobs += batch_jobs(ctx, exe, b["tag"], ["--mode", "free", "--p1", NF], 2)
+        for j in batch_jobs(ctx, exe, b["tag"], ["--mode", "free", "--p1", NF], 4):
+            j["env"] = dict(j.get("env") or {}, VERIF_SPECIAL=SPECIAL)      # + hash states holding rare chaining values (corpus), then freed
+            jobs.append(j)
         big = 1 if b["tag"] in ("prod-cmake-Release", "gcc-O2-bzero", "gcc-O2-fallback", "clang-O2-fallback") else 0     # 2..4 GiB cases: a few builds only
-        jobs += batch_jobs(ctx, exe, b["tag"], ["--mode", "clean", "--p1", NC, "--p2", big], 2)
+        jobs += batch_jobs(ctx, exe, b["tag"], ["--mode", "clean", "--p1", NC, "--p2", big], 4)
     ctx.run_jobs(jobs, timeout=1800)
 
     # ---- wipe survival in unity / LTO builds, both configurations of the primitive, with positive controls
